@@ -384,5 +384,9 @@ def run(repo: Repo, tier: str) -> Report:
     rep.ob("R-VALIDATE", AFILE, "WhittakerSmoother.whitsvc", "lc without p raises ValueError", len(lcchk) == 1, "", "lc requires p")
     from ..rules import r_truthy
     r_truthy(rep, repo, "WhittakerSmoother", "whitsvc", ["nodata"], "0 is a legitimate nodata value (it is the one the test-suite uses); a truth test silently replaces or drops it")
+    from ..rules import r_stateless
+    r_stateless(rep, repo, [('WhittakerSmoother', 'whitsvc')])
+    from ..rules import ws2d_straight
+    ws2d_straight(rep, repo)
     rep.floor("C04 obligations", len(rep.obls), 100)
     return rep
